@@ -84,6 +84,20 @@ Definition ff_validate (orc : oracle) (F : fsys) (U : uparse) (f : ffield) (x : 
 Definition ff_to_basic (f : ffield) (v : pyval) : res pyval := Ok v.
 Definition ff_to_python (f : ffield) (v : pyval) : res pyval := Ok v.
 
+(* ---- the open finding F56: a start directory together with an inherited string option.  The options run on the text as
+   typed, the stored value is the resolved absolute path: validating it again may change or reject it ---- *)
+Definition sopts_plain (o : sopts) : bool :=
+  match o with
+  | mk_sopts None None None [] CNone SNone => true
+  | _ => false
+  end.
+Definition known_F56 (f : ffield) : bool :=
+  match f with
+  | FFile _ o _ (Some d) => negb (is_nil d) && negb (sopts_plain o)
+  | _ => false
+  end.
+Definition ff_F13 (f : ffield) : bool := match f with FFile _ o _ _ | FUrl _ o => sopts_F13 o end.
+
 (* ---- the `filefields` correspondence stream: per-case oracle tables ---- *)
 Section Tables.
   Fixpoint tlook {A : Type} (t : list (str * A)) (k : str) : option A :=
@@ -113,10 +127,11 @@ Definition o_rc (r : res pyval) : pyval :=
 
 (* case = (field, path rows, join rows, urlparse rows, value); observation = validate x; validate of the result;
    validate (to_python (to_basic result)) -- the last two only after an accepted non-None result *)
-Definition ffcase := (ffield * list prow * list (str * str * str) * list (str * option str) * pyval)%type.
+Definition ffcase := (ffield * list (str * str * bool) * list prow * list (str * str * str) * list (str * option str) * pyval)%type.
 Definition run_filefields (c : ffcase) : pyval :=
   match c with
-  | (f, rows, joins, urls, x) =>
+  | (f, rx, rows, joins, urls, x) =>
+      let no_oracle := table_oracle rx in
       let F := fsys_of rows joins in
       let U := tlook urls in
       let r1 := ff_validate no_oracle F U f x in
